@@ -253,6 +253,9 @@ func (cl *Client) Poll() []ref.Packet {
 	return pks
 }
 
+// Leftover returns the number of undecoded bytes (an incomplete packet) seen so far.
+func (cl *Client) Leftover() int { return len(cl.rest) }
+
 // Drop closes the connection from the peer side and runs.
 func (cl *Client) Drop() {
 	cl.C.PeerClose()
